@@ -1,12 +1,13 @@
 """C11, reference-resolution family: "$id" / "$ref" are resolved per RFC 3986 section 5.2 (spec/Uri.tla, reproduced on the
 RFC's own examples by spec/gen/MC_UriCorpus inside TLC); spec/gen/MC_C11uri enumerates base URI x nested relative "$id" x
 reference (dot / dot-dot / empty / ordinary segments, absolute-path, network-path and absolute references, query, empty
-fragment) with the identifier addressed and near-miss identifiers; harness/c11uri.cpp requires the verdicts that follow."""
+fragment) with the identifier addressed and near-miss identifiers, and JSON Pointer fragments whose tokens need ~ escapes and
+percent-encoding (RFC 6901 section 6); harness/c11uri.cpp requires the verdicts that follow."""
 import json
 import vf
 
-CFGS = {'quick': ['gen/MC_C11uri_q.cfg', 'gen/MC_C11urinest_q.cfg'],
-        'thorough': ['gen/MC_C11uri_t.cfg', 'gen/MC_C11urinest_t.cfg']}
+CFGS = {'quick': ['gen/MC_C11uri_q.cfg', 'gen/MC_C11urinest_q.cfg', 'gen/MC_C11uriptr.cfg'],
+        'thorough': ['gen/MC_C11uri_t.cfg', 'gen/MC_C11urinest_t.cfg', 'gen/MC_C11uriptr.cfg']}
 SOURCES = ['c11uri.cpp']
 
 
